@@ -17,7 +17,7 @@ import random
 import struct
 from fractions import Fraction
 
-from .. import corpus
+from .. import corpus, routes
 from ..codec import load_db, validate
 from ..common import SPEC, Check, workdir
 from ..gen_db import bits_of, frac
@@ -151,8 +151,10 @@ def variations(fdb: dict, rawf: dict, rng: random.Random, tier: str):
     return out
 
 
-def encode(enc, msg):
+def encode(enc, msg, route="actisense", fast=False):
     try:
+        if route != "actisense":
+            return "enc", list(routes.wire_payload(enc, route, msg, fast)), ""
         return "enc", list(payload_of_actisense(enc.encode_actisense(msg))), ""
     except ValueError as e:
         return "err", [], f"{e}"[:160]
@@ -181,6 +183,7 @@ def bind(chk: Check, tier: str, seed: int):
     rng = random.Random(seed)
     dec, enc = NMEA2000Decoder(), NMEA2000Encoder()
     recs, meta = [], []
+    route_encs = {r: NMEA2000Encoder() for r in routes.ROUTES[1:]}
     encodable = [d for d in db["defs"] if d["encodable"]]
     if tier == "selftest":
         encodable = encodable[::4]
@@ -201,6 +204,11 @@ def bind(chk: Check, tier: str, seed: int):
         base_req = [req_of(f, rawd["Fields"][i], msg.fields[i]) for i, f in enumerate(d["fields"])]
         recs.append({"id": d["id"], "ret": ret, "e": e, "base": [], "changed": 0, "req": base_req, "err": err})
         meta.append((d["id"], "-", "base"))
+        # the same request through the packet-producing routes (one long-lived encoder each; payload reassembled from the frames)
+        for r in routes.ROUTES[1:]:
+            ret_r, e_r, err_r = encode(route_encs[r], msg, r, d["fast"] == "fast")
+            recs.append({"id": d["id"], "ret": ret_r, "e": e_r, "base": [], "changed": 0, "req": base_req, "err": err_r})
+            meta.append((d["id"], "-", f"base/via-{r}"))
         for i, f in enumerate(d["fields"]):
             if f["match"] != -1:
                 # a match field keeps its value; a lookup among them may still be requested by the name of that value
